@@ -765,8 +765,12 @@ func (s *session) sysVars() map[string]interface{} {
 	if s.autocommit {
 		ac = 1
 	}
+	step := s.e.autoStep
+	if step < 1 {
+		step = 1
+	}
 	return map[string]interface{}{
-		"auto_increment_increment": int64(1),
+		"auto_increment_increment": step,
 		"auto_increment_offset":    int64(1),
 		"autocommit":               ac,
 		"version":                  serverVersion,
